@@ -344,7 +344,7 @@ PROPS["C06"] = {
         {"id": "lifecycle",
          "quick": ["c06::c06_object_paths", "c06::c06_group_paths", "c06::c06_clone_and_self_return",
                    "c06::c06_borrowing_objects_do_not_drop", "c06::c06_boxed_parent_borrowed_child", "c06::c06_cbox_paths",
-                   "c06::c06_cslicebox", "c06::c06_negative_twin"],
+                   "c06::c06_cslicebox", "c06::c06_zero_sized_payload_with_destructor", "c06::c06_negative_twin"],
          "cbmc_args": LEAK, "timeout": 1800},
     ],
     "negative": ["c06::c06_negative_twin"],
@@ -363,7 +363,7 @@ PROPS["C07"] = {
     "groups": [
         {"id": "context",
          "quick": ["c07::c07_owned_tree", "c07::c07_consuming_call_keeps_context", "c07::c07_clone_cast_selfreturn",
-                   "c07::c07_caller_glue_holds_context_across_consuming_call", "c07::c07_instance_destroyed_before_context_released",
+                   "c07::c07_caller_glue_holds_context_across_consuming_call", "c07::c07_consuming_call_returning_wrapped_result", "c07::c07_instance_destroyed_before_context_released",
                    "c07::c07_kf_borrowed_obj_ref", "c07::c07_kf_borrowed_obj_mut", "c07::c07_kf_borrowed_group_ref",
                    "c07::c07_negative_twin"],
          "cbmc_args": LEAK, "timeout": 1800},
